@@ -283,6 +283,10 @@ class Engine:
         self.tq += time.time() - t
         self.nq += 1
         r = str(r)
+        if r == 'unsat' and timeout >= 20000 and XCHECK['every']:
+            XCHECK['seen'] += 1
+            if XCHECK['seen'] % XCHECK['every'] == 0:
+                cross_check(s)
         return r, (s.model() if r == 'sat' else None)
 
     @staticmethod
@@ -528,6 +532,45 @@ class Engine:
             return False
         r, _ = self.check(z3.Not(sf), timeout=timeout)
         return r == 'unsat'
+
+
+# second-solver cross-check (thorough tier): every n-th final `unsat` is re-decided by cvc5 from the exported SMT-LIB2
+XCHECK = {'every': int(os.environ.get('VERIF_XCHECK', '0') or 0), 'seen': 0, 'checked': 0, 'agree': 0, 'unknown': 0, 'disagree': 0, 'samples': []}
+
+
+def cross_check(solver, tlimit=20000):
+    try:
+        import cvc5
+    except ImportError:
+        return
+    smt = solver.to_smt2()
+    res = None
+    try:
+        tm = cvc5.TermManager()
+        slv = cvc5.Solver(tm)
+        slv.setOption('tlimit-per', str(tlimit))
+        slv.setLogic('ALL')
+        p = cvc5.InputParser(slv)
+        p.setStringInput(cvc5.InputLanguage.SMT_LIB_2_6, smt, 'obligation')
+        sm = p.getSymbolManager()
+        while True:
+            c = p.nextCommand()
+            if c.isNull():
+                break
+            out = str(c.invoke(slv, sm)).strip()
+            if out in ('sat', 'unsat', 'unknown'):
+                res = out
+    except Exception as e:  # noqa: BLE001
+        res = 'unknown'
+    XCHECK['checked'] += 1
+    if res == 'unsat':
+        XCHECK['agree'] += 1
+    elif res == 'sat':
+        XCHECK['disagree'] += 1
+        if len(XCHECK['samples']) < 2:
+            XCHECK['samples'].append(smt[:2000])
+    else:
+        XCHECK['unknown'] += 1
 
 
 ENG = None
